@@ -228,6 +228,17 @@ def random_scripts(rng, n, maxlen=200):
                 b'\x51\x21' + rng.randbytes(33), b'\x00\x14' + rng.randbytes(20), b'\x76\xa9\x14' + rng.randbytes(19)):
         for before in (btc.p2pkh(rng.randbytes(20)), btc.p2sh(rng.randbytes(20)), b'\x51\x20' + rng.randbytes(32), btc.p2pk(k)):
             out += [before, bad, bad, bad, before]
+    # pairs of different scripts with the same 64-bit SipHash-1-3 fingerprint under the all-zero key (what `DefaultHasher::new()`
+    # computes over version byte 0x00 followed by the script bytes; found by a 2^32 search in mutation round 9): a result looked
+    # up by such a fingerprint alone belongs to the other script
+    out += [bytes.fromhex(x) for x in ('76a914ee109e181d1d4d784330372d7262702d64656d6f88ac', '76a914a677383daaeba9ba4330372d7262702d64656d6f88ac',
+                                       '76a9142e876977978f28314330372d7262702d64656d6f88ac', '6a1435ccd730bd5dda614330372d7262702d64656d6f',
+                                       '76a914a677383daaeba9ba4330372d7262702d64656d6f88ac', '76a914ee109e181d1d4d784330372d7262702d64656d6f88ac')]
+    # pushes whose Base58Check form under a fork coin's version byte (or 0x05) starts like another kind of address ('bc1...',
+    # 'tb1...' with capitals, '1...', '3...'): an address is a string of exactly those characters
+    for rep_ in range(3):
+        for ver_, pl in btc.lookalike_payloads():
+            out += [b'\xa9' + btc.push(pl, [None, 1, 2][rep_]) + b'\x87', b'\x76\xa9' + btc.push(pl, [None, 1, 2][rep_]) + b'\x88\xac', b'\x51']
     # scripts beyond Bitcoin's 10 000-byte script size limit are still just scripts for a parser
     out += [b'\x51' * 10001, b'\x6a' + btc.push(rng.randbytes(10100)), b'\x51' + btc.push(rng.randbytes(10050)) + b'\x51\xae',
             b'\x75' * 10000, b'\x75' * 20000]
